@@ -21,6 +21,11 @@ Theorem C02_src_handler_bracketed : bracketed src_handler_sk = true.
 Proof. vm_compute. reflexivity. Qed.
 Print Assumptions C02_src_handler_bracketed.
 
+(* ... and a thread running them alone never blocks on itself (needed only to REALISE sequential schedules) *)
+Theorem C02_src_skeletons_solo_ok : solo_ok src_logger_sk = true /\ solo_ok src_handler_sk = true.
+Proof. vm_compute. split; reflexivity. Qed.
+Print Assumptions C02_src_skeletons_solo_ok.
+
 (* 1. no two threads are ever inside the pipeline at the same moment *)
 Theorem C02_mutual_exclusion : forall sk quota n, bracketed sk = true -> threads_below n quota ->
   forall sched t1 t2, inside (run sk quota s0 sched) t1 = true -> inside (run sk quota s0 sched) t2 = true -> t1 = t2.
@@ -35,6 +40,14 @@ Theorem C02_serialisable : forall sk quota n, bracketed sk = true -> threads_bel
   exists g, shape g sk = true /\ log s = serial_log (acq_of g (acq s)).
 Proof. exact serialisable. Qed.
 Print Assumptions C02_serialisable.
+
+(* 2'. the same in schedule form: the sink log of ANY complete schedule equals the sink log of the sequential schedule
+   [whole_msgs] that runs whole messages one after the other in lock-acquisition order *)
+Theorem C02_serialisable_schedule : forall sk quota n, bracketed sk = true -> solo_ok sk = true -> threads_below n quota ->
+  forall sched, let s := run sk quota s0 sched in finishedb n quota s = true ->
+  exists g, shape g sk = true /\ log (run sk quota s0 (whole_msgs sk (acq_of g (acq s)))) = log s.
+Proof. exact serialisable_schedule. Qed.
+Print Assumptions C02_serialisable_schedule.
 
 (* 3a. every message is delivered exactly once (count of index i among the deliveries of thread t) ... *)
 Theorem C02_exactly_once : forall sk quota n, bracketed sk = true -> threads_below n quota ->
@@ -82,6 +95,14 @@ Theorem C02_model_traces_accepted : forall sk quota n, bracketed sk = true -> th
   (finishedb n quota s = true -> accept_conc quota n (evs s) = true).
 Proof. exact trace_accepted. Qed.
 Print Assumptions C02_model_traces_accepted.
+
+(* conversely an accepted trace IS the event trace of a complete run of the model (the sequential schedule executing the
+   whole messages in delivery order): acceptor = set of complete model traces *)
+Theorem C02_accepted_is_model_trace : forall sk quota n tr, bracketed sk = true -> solo_ok sk = true ->
+  accept_conc quota n tr = true ->
+  let s := run sk quota s0 (whole_msgs sk (map fst (delivs tr))) in evs s = tr /\ finishedb n quota s = true.
+Proof. exact accepted_is_model_trace. Qed.
+Print Assumptions C02_accepted_is_model_trace.
 
 (* ... and an accepted trace has the trace-level form of the property: strict alternation enter/deliver
    (nobody overlaps), consecutive sequence numbers, every thread's messages exactly once in order *)
